@@ -5,7 +5,7 @@
    [YangSchema.schema] is that table, regenerated from yang.go / ast.go on every run.
    [mirror], [rejects], [schema_wf] are in Spec/C03.v. *)
 From Coq Require Import Ascii String List Bool Arith.
-From GY Require Import Base.Outcome Model.Ast Spec.C03 Proofs.AstProofs.
+From GY Require Import Base.Outcome Model.Ast Spec.C03 Proofs.AstProofs Proofs.AstPosProofs.
 From GY Require Gen.YangSchema.
 Import ListNotations.
 Local Open Scope string_scope.
@@ -91,6 +91,50 @@ Theorem C03_required_pinned : required_table YangSchema.schema =
     ("Import", "prefix", true, []) ].
 Proof. exact yang_required. Qed.
 
+(* ------------------------------------------------------------------ which error, and where
+   (this part also serves C16's third sentence for errors from building a module)
+   [build_e] is [build] returning, for an error, its kind and the id of the statement whose
+   Location() the Go code prints in front of the message (None: the message has no position). *)
+
+(* P0: build_e is build with more information: same verdict, same node; hence T1-T4 carry over *)
+Theorem C03_pos_projects : forall S s p, forget (build_e S s p) = build S s p.
+Proof. exact forget_build_e. Qed.
+
+Theorem C03_pos_projects_all : forall S l, forget (parse_all_e S l) = parse_all S l.
+Proof. exact forget_parse_all_e. Qed.
+
+(* P1: a reported position is the start of a statement of the tree (any table) *)
+Theorem C03_pos_in_tree : forall S s p k j, build_e S s p = RErr k (Some j) -> In j (ids s).
+Proof. exact build_e_pos_in_tree. Qed.
+
+(* P2: the reported error is THE first one in Go's evaluation order -- depth-first, substatements in
+   source order (everything before the culprit is accepted), then required, required-for-this-keyword,
+   required-for-the-other-keyword -- as stated declaratively by [reports] (Spec/C03.v), and conversely *)
+Theorem C03_pos_first : forall S, schema_wf S = true ->
+  forall s p k pos, good_parent S p -> (build_e S s p = RErr k pos <-> reports S s (k, pos)).
+Proof. exact build_e_reports_iff. Qed.
+
+Theorem C03_pos_unique : forall S, schema_wf S = true ->
+  forall s e1 e2, reports S s e1 -> reports S s e2 -> e1 = e2.
+Proof. exact reports_unique. Qed.
+
+(* P3: what the position points at, by kind ([site], Spec/C03.v): the unknown substatement itself for
+   unknown-field and no-extension errors; the statement that lacks the mandatory substatement for
+   missing-required errors; the statement itself for an unknown statement; no position for "already set";
+   and -- pinned known behaviour, KNOWN_FINDINGS builder.kind-field-reported-at-parent -- the PARENT for a
+   substatement that is required only by the other keyword *)
+Theorem C03_pos_site : forall S, schema_wf S = true ->
+  forall s p k pos, good_parent S p -> build_e S s p = RErr k pos -> site S s k pos.
+Proof. exact build_e_site. Qed.
+
+(* P4: Modules.Parse over a whole text: the error is that of the first statement that fails to build, or
+   the position-less "not a module or submodule" of the first statement that builds but is neither *)
+Theorem C03_pos_parse_all : forall S l k pos, parse_all_e S l = RErr k pos ->
+  exists l1 s l2, l = (l1 ++ s :: l2)%list /\ (exists ns, parse_all S l1 = Ok ns) /\
+    (build_e S s None = RErr k pos \/
+     (k = ENotModule /\ pos = None /\ exists n, build S s None = Ok n /\ add S n = Err)).
+Proof. exact parse_all_e_err. Qed.
+
 (* ------------------------------------------------------------------ non-vacuity *)
 
 Definition S0 := YangSchema.schema.
@@ -157,3 +201,31 @@ Proof.
   eapply RejHere; [vm_compute; reflexivity|].
   eapply BadUnknown; [left; reflexivity | vm_compute; reflexivity].
 Qed.
+
+(* error positions: module m { namespace n; prefix p; container c { leaf a; bogus x; } zzz y; }
+   -- three things wrong; the first in evaluation order is the leaf (id 4) lacking its type *)
+Definition ex_three_errors : stmt :=
+  st "module" "m" 0 [st "namespace" "n" 1 []; st "prefix" "p" 2 [];
+    st "container" "c" 3 [st "leaf" "a" 4 []; st "bogus" "x" 5 []]; st "zzz" "y" 6 []].
+Example C03_pos_first_ex : build_e S0 ex_three_errors None = RErr EMissing (Some 4).
+Proof. vm_compute. reflexivity. Qed.
+Example C03_pos_unknown_field_ex :
+  build_e S0 (st "module" "m" 0 [st "namespace" "n" 1 []; st "prefix" "p" 2 [];
+                st "container" "c" 3 [st "leaf" "a" 4 [st "type" "t" 5 []]; st "bogus" "x" 6 []]]) None
+  = RErr EUnknownField (Some 6).
+Proof. vm_compute. reflexivity. Qed.
+Example C03_pos_already_set_ex :
+  build_e S0 (st "module" "m" 0 [st "namespace" "n" 1 []; st "prefix" "p" 2 []; st "prefix" "q" 3 []]) None
+  = RErr EAlreadySet None.
+Proof. vm_compute. reflexivity. Qed.
+Example C03_pos_other_kind_ex :          (* reported at the module (id 0), not at belongs-to (id 3) *)
+  build_e S0 (st "module" "m" 0 [st "namespace" "n" 1 []; st "prefix" "p" 2 [];
+                st "belongs-to" "x" 3 [st "prefix" "x" 4 []]]) None
+  = RErr EOtherKind (Some 0).
+Proof. vm_compute. reflexivity. Qed.
+Example C03_pos_not_module_ex : parse_all_e S0 [st "container" "c" 0 []] = RErr ENotModule None.
+Proof. vm_compute. reflexivity. Qed.
+Example C03_pos_unknown_statement_ex :
+  parse_all_e S0 [st "submodule" "s" 0 [st "belongs-to" "o" 1 [st "prefix" "p" 2 []]]; st "bogus" "c" 3 []]
+  = RErr EUnknownStmt (Some 3).
+Proof. vm_compute. reflexivity. Qed.
